@@ -1,5 +1,7 @@
 import A2Verif.Lemmas.C08Imd
 import A2Verif.Lemmas.C08Td0
+import A2Verif.Model.C09Meta
+import A2Verif.Gen.C09Const
 /-!
 # Property C09 (and the image half of C06) at OBJECT level: IMD / TD0 images that were loaded with mixed record types,
 written to, and whose metadata was edited, still serialise to bytes that load back to the same object
@@ -104,6 +106,90 @@ theorem td0_any_history_reloads (x y : Image) (h : ImageWf x) (r : Td0Reach x y)
     subst he
     simp [commentBody]
 
+/-- **C09, TD0, files written by other programs** (the gap the seeded change C09-7 lived in).  For EVERY byte string that
+`from_bytes` accepts and EVERY outcome of the lossy UTF-8 conversion of its comment bytes (`lossy` is an arbitrary function:
+code-page bytes become replacement characters, anything may get longer or shorter), the object is well formed: the notes in
+memory have no NUL and no CR LF pair — whatever `\r\0`, CR LF, lone CR / LF or NULs the file had —, they fit the 16-bit
+length field (repaired tree: over-long notes are cut at a character boundary), the time stamp has 6 bytes, every track has the
+sectors its count byte says, every sector record a right length word.  The length and CRC fields of the comment header
+object still hold the FILE's values — which `to_bytes` must not trust (`td0_foreign_history_reloads`). -/
+theorem td0_foreign_wf (lossy : List Nat → List Nat) (b : List Nat) (x : Image)
+    (h : fromBytesNormalD lossy true b = some x) : ImageWf x := by
+  unfold fromBytesNormalD at h
+  simp only [↓reduceIte] at h
+  split at h
+  · simp at h
+  · rename_i hlen
+    split at h
+    · simp at h
+    · split at h
+      · simp at h
+      · have hhdr : ((b.take 10).drop 2).length = 8 := by simp only [List.length_drop, List.length_take]; omega
+        split at h
+        · -- with a comment block
+          split at h
+          · rename_i c0 c1 l0 l1 r2 hr
+            split at h
+            · simp at h
+            · rename_i h6
+              split at h
+              · simp at h
+              · split at h
+                · simp at h
+                · split at h
+                  · simp at h
+                  · rename_i ts hne hts
+                    simp only [Option.some.injEq] at h
+                    subst h
+                    have hd := decodeText_spec (lossy ((r2.drop 6).take (unle16 l0 l1)))
+                    have hcl := clipNotes_spec 65535 _ hd.1 hd.2
+                    refine ⟨hhdr, ?_, readTracks_wf _ _ _ hts, ?_⟩
+                    · intro h0; exact hne h0
+                    · intro c hc
+                      simp only [Option.some.injEq] at hc
+                      subst hc
+                      refine ⟨by simp only [List.length_take]; omega, ?_, hcl.2, hcl.1⟩
+                      rw [encodeText_length _ hcl.1]
+                      have := clipNotes_length 65535 (decodeText (lossy ((r2.drop 6).take (unle16 l0 l1))))
+                      omega
+                  · simp at h
+          · simp at h
+        · split at h
+          · simp at h
+          · rename_i ts hne hts
+            simp only [Option.some.injEq] at h
+            subst h
+            refine ⟨hhdr, ?_, readTracks_wf _ _ _ hts, ?_⟩
+            · intro h0; exact hne h0
+            · intro c hc; simp at hc
+          · simp at h
+
+/-- **C09 / C06, TD0, every history of a LOADED foreign object**: load any accepted byte string, then any sequence of notes edits,
+saves and sector writes — also none at all: the save of the untouched object — and the next save loads again with the notes the
+object shows; the comment length in the file is the length of those notes, not the length the foreign file declared. -/
+theorem td0_foreign_history_reloads (lossy : List Nat → List Nat) (b : List Nat) (x y : Image)
+    (h : fromBytesNormalD lossy true b = some x) (r : Td0Reach x y) :
+    fromBytesNormal (saveImg y).1 = some (canon y) ∧ (canon y).comment.map (·.text) = y.comment.map (·.text) ∧
+      (∀ c, (canon y).comment = some c → c.len = le16 ((encodeText c.text).length % 65536)) := by
+  obtain ⟨_, h2, h3, h4⟩ := td0_any_history_reloads x y (td0_foreign_wf lossy b x h) r
+  exact ⟨h2, h3, fun c hc => (h4 c hc).1⟩
+
+/-- `put_metadata` of the notes in the repaired tree needs no side condition: what it accepts fits the length field. -/
+theorem td0_put_notes_limited (x x' : Image) (h : ImageWf x) (stamp v : List Nat) (hs : stamp.length = 6)
+    (hp : putNotesImgL true stamp x v = some x') : ImageWf x' ∧ Td0Step x x' := by
+  simp only [putNotesImgL, putNotesCL] at hp
+  split at hp
+  · simp at hp
+  · rename_i hlim
+    have hp' : putNotesImg stamp x v = some x' := hp
+    by_cases h0 : 0 ∈ v
+    · simp [putNotesImg, putNotesC, h0] at hp'
+    · have hl : (encodeText (normalizeNotes v)).length < 65536 := by
+        rw [encodeText_length _ (normalizeNotes_spec v h0).1]
+        have : ¬ ((normalizeNotes v).length > 65535) := fun hgt => hlim ⟨trivial, hgt⟩
+        omega
+      exact ⟨(td0_put_notes_wf x x' h stamp v hs hl hp').1, Td0Step.notes x x' stamp v hs hl hp'⟩
+
 /-- a one-track image WITHOUT comment block; notes are added (header created with length `[0,0]`), saved, replaced by a
 longer text, saved again -/
 def exTd0NoComment : Image where
@@ -150,5 +236,49 @@ theorem imd_put_comment_wf (o : Obj) (h : ImageWf o.image) (v : List Nat) (hv : 
   ⟨h.hlen, h.sig, fun _ hb he => hv (he ▸ hb), h.some, h.tracks⟩
 
 end imd
+
+section wozkind
+open A2Verif.Gen.C09Const A2Verif.Model.C09Meta
+
+/-- `Woz2::from_bytes`, the disk kind: a first guess from the INFO chunk (`disk_type`, `boot_sector_format`, `disk_sides`),
+then — `solves` = the translator found the `get_track_solution(0)` test standing first and alone — the solution of track 0
+replaces it.  With something in front of that test (the seeded change C09-8: "INFO says which format, no need to search") the
+editable item `boot_sector_format` decides. -/
+def wozKindAfterLoad (solves : Bool) (infoGuess bsf : Nat) (track0 : Option Nat) : Nat :=
+  if solves then track0.getD infoGuess
+  else if bsf = 1 ∨ bsf = 2 then infoGuess else track0.getD infoGuess
+
+/-- **C09, kind after reload is a function of the track data** (`…_current_tree`: re-extracted from src/img/woz2.rs and
+woz1.rs on every run).  In the tree being checked `from_bytes` solves track 0 unconditionally; hence for a track that solves,
+the kind after loading is the same whatever the INFO items say — in particular whatever value `put_metadata` stored in
+`boot_sector_format` before the save. -/
+theorem woz_kind_from_tracks_current_tree :
+    WOZ2_KIND_SOLVES_TRACK0 = 1 ∧ WOZ1_KIND_SOLVES_TRACK0 = 1 ∧
+    ∀ guess guess' bsf bsf' k, wozKindAfterLoad (WOZ2_KIND_SOLVES_TRACK0 == 1) guess bsf (some k) =
+      wozKindAfterLoad (WOZ2_KIND_SOLVES_TRACK0 == 1) guess' bsf' (some k) := by
+  refine ⟨by decide, by decide, ?_⟩
+  intro g g' b b' k
+  have : (WOZ2_KIND_SOLVES_TRACK0 == 1) = true := by decide
+  simp [wozKindAfterLoad, this]
+
+/-- what goes wrong without it: with the test guarded by INFO, a 16-sector disk saved with `boot_sector_format = 2` loads as the
+kind INFO suggests, not the one on its tracks -/
+example : wozKindAfterLoad false 13 2 (some 16) = 13 ∧ wozKindAfterLoad true 13 2 (some 16) = 16 := by decide
+
+/-- **C09, metadata value domains** (`…_current_tree`): the values `Info::verify_value` of the current source enumerates for the
+one-byte INFO items are exactly the spellings the Lean key tables (`Model.C09Meta.table`) accept — so `meta_put_get_partial`
+speaks about the domain the code has now (the harness offers all 256 values of every one-byte item to the real code and to
+the tables: `metaput`). -/
+theorem woz_verify_domains_current_tree :
+    WOZ2_OK_WRITE_PROTECTED = [0, 1] ∧ WOZ2_OK_SYNCHRONIZED = [0, 1] ∧ WOZ2_OK_CLEANED = [0, 1] ∧
+    WOZ2_OK_BOOT_SECTOR_FORMAT = [0, 1, 2, 3] ∧ WOZ2_OK_DISK_TYPE = [1, 2] ∧ WOZ2_OK_DISK_SIDES = [1, 2] ∧
+    WOZ1_OK_WRITE_PROTECTED = [0, 1] ∧ WOZ1_OK_SYNCHRONIZED = [0, 1] ∧ WOZ1_OK_CLEANED = [0, 1] ∧ WOZ1_OK_DISK_TYPE = [1, 2] ∧
+    (∀ v : Fin 256, (accept (.hexOneOf 1 [sp "00", sp "01", sp "02", sp "03"]) (encodeHex [v.val])).isSome =
+      WOZ2_OK_BOOT_SECTOR_FORMAT.contains v.val) ∧
+    (∀ v : Fin 256, (accept (.hexOneOf 1 b01) (encodeHex [v.val])).isSome = WOZ2_OK_WRITE_PROTECTED.contains v.val) := by
+  refine ⟨by decide, by decide, by decide, by decide, by decide, by decide, by decide, by decide, by decide, by decide, ?_, ?_⟩ <;>
+    decide +kernel
+
+end wozkind
 
 end A2Verif.C09
